@@ -84,11 +84,47 @@ def run(ctx, out):
                 "(EOPNOTSUPP on ext4), by each 'unsupported' errno (EOPNOTSUPP EINVAL EXDEV ETXTBSY), by a hard errno "
                 "(EIO EPERM ENOSPC), or emulated as successful (return 0, ioctl skipped) by the supervisor; plus trees of 12 files "
                 "where the answer differs from file to file (refused for the first 1 or 3, successful after; real; successful "
-                "for all): the contract is judged per file; plus trees copied ACROSS file systems (tmpfs <-> work directory), the kernel's own answer; distinct = distinct case tuple")
+                "for all): the contract is judged per file; plus trees copied ACROSS file systems (tmpfs <-> work directory), the kernel's own answer; plus -v / -vv runs whose standard output is a pipe or /dev/full; distinct = distinct case tuple")
     out.assumptions.append("C15: a real successful clone is never exercised here (ext4 has no reflink); success is emulated")
     datapath.run_cases(ctx, out, gen(ctx), "C15", oracle, nontrivial)
     run_trees(ctx, out)
     run_cross(ctx, out)
+    run_logging(ctx, out)
+
+
+def run_logging(ctx, out):
+    """What xcp prints must not change what it does: -v / -vv with a standard output that works, that is full (/dev/full: every
+    write fails) or whose reader is gone.  auto still falls back to a byte-exact copy and exits 0; never issues no clone."""
+    rng = ctx.rng
+    sup = core.build_sup()
+    d0 = ctx.work.fresh("c15log")
+    k = 0
+    for driver in ("parfile", "parblock"):
+        for mode in ("auto", "never"):
+            for verb in (["-v"], ["-vv"]):
+                for so in (None, "/dev/full"):
+                    k += 1
+                    d = os.path.join(d0, "l%d" % k)
+                    os.makedirs(os.path.join(d, "src", "sub"))
+                    for i, size in enumerate([1, 70000, 300001]):
+                        fsutil.make_file(os.path.join(d, "src", "sub" if i else "", "f%d" % i), size, [(0, size)], tag=k * 4 + i + 1, sync=False)
+                    argv = [ctx.bins["xcp"], "-r", "-T", "--driver", driver, "-w", "2", "--reflink", mode, "--block-size", "65536"] + verb + ["src", "dst"]
+                    r = xcp.run_supervised(sup, argv, d, d, tag="lg", timeout_ms=60000, stdout_path=so)
+                    out.case(("logging", driver, mode, tuple(verb), so), True)
+                    out.count("logging_runs")
+                    rep = dict(kind="verbose run, standard output = %s" % (so or "a pipe"), argv=argv[1:], exit=r.exit, stderr=r.stderr[-300:])
+                    nclone = sum(1 for e in r.trace if e["sys"] == "ioctl" and e["a"][1] == xcp.FICLONE and e.get("ret") is not None)
+                    if mode == "never" and nclone:
+                        out.violation("reflink=never but a clone request (FICLONE) was issued", rep)
+                    elif r.exit != 0:
+                        out.violation("reflink=%s with %s and standard output on %s failed (exit %d) where cloning is merely unavailable"
+                                      % (mode, " ".join(verb), so or "a pipe", r.exit), rep)
+                    else:
+                        for rel in ("f0", "sub/f1", "sub/f2"):
+                            if not datapath.files_equal(os.path.join(d, "src", rel), os.path.join(d, "dst", rel)):
+                                out.violation("reflink=%s with %s: exit 0 but %s is not byte-exact" % (mode, " ".join(verb), rel), rep)
+                                break
+                    shutil.rmtree(d, ignore_errors=True)
 
 
 def run_cross(ctx, out):
